@@ -30,6 +30,8 @@ type Options struct {
 	Trace         bool
 	MapReverse    bool // iterate maps in reverse insertion order
 	StopAtFirst   bool
+	Witnesses     int  // number of end-of-path models to sample for native validation
+	Thorough      bool
 	Deadline      time.Time
 	ForcePrefix   []int // forced initial decisions (work splitting)
 }
@@ -99,6 +101,8 @@ type Result struct {
 	Inputs        int            `json:"max_inputs"`
 	Decisions     int            `json:"decisions"`
 	InitNotes     []string       `json:"init_notes,omitempty"`
+	Witnesses     [][]InputVal   `json:"witnesses,omitempty"`
+	ReachTags     []string       `json:"reach_tags,omitempty"` // tags present in the harness source
 	ObservedTrace []string       `json:"observed,omitempty"` // concrete mode
 	Outcome       string         `json:"outcome,omitempty"`  // concrete mode: ok | panic:<msg> | assertfail:<msg> | assumefail
 }
@@ -176,6 +180,7 @@ type Interp struct {
 	concPos   int
 	curFrame  *frame
 	nextIsDefer bool
+	lastWhere string
 	initNotes []string
 	patCache  map[*ssa.Function]stubFn
 	named     map[string]*Cell
@@ -307,6 +312,7 @@ func (in *Interp) resetPath() {
 	in.seq = 0
 	in.concPos = 0
 	in.curFrame = nil
+	in.lastWhere = ""
 }
 
 func (in *Interp) runOnePath(fn *ssa.Function) {
@@ -326,12 +332,12 @@ func (in *Interp) runOnePath(fn *ssa.Function) {
 				res.AssumePruned++
 			}
 		case unmodelled:
-			res.Inconclusive = append(res.Inconclusive, "unmodelled: "+e.msg+" at "+in.where())
+			res.Inconclusive = append(res.Inconclusive, "unmodelled: "+e.msg+" at "+in.lastWhere)
 			if in.opts.ConcreteMode {
 				res.Outcome = "unmodelled:" + e.msg
 			}
 		case boundExceeded:
-			res.Inconclusive = append(res.Inconclusive, "bound-exceeded: "+e.msg+" at "+in.where())
+			res.Inconclusive = append(res.Inconclusive, "bound-exceeded: "+e.msg+" at "+in.lastWhere)
 		default:
 			panic(r)
 		}
@@ -435,6 +441,9 @@ func (in *Interp) decide(k int, alts []*sym.Term) int {
 		d := &in.decisions[in.dpos]
 		if !d.flip {
 			in.dpos++
+			if d.forced && d.choice >= k {
+				panic(pathEnd{"infeasible"})
+			}
 			if d.forced && !d.pushed {
 				// forced prefix decision seen for the first time: put it on the solver stack
 				d.pushed = true
@@ -824,7 +833,13 @@ func (in *Interp) runFrom(fr *frame, b *ssa.BasicBlock) (pan *goPanic) {
 				return
 			}
 			switch r.(type) {
-			case unmodelled, boundExceeded, pathEnd, EngineCrash:
+			case unmodelled, boundExceeded:
+				if in.lastWhere == "" {
+					in.curFrame = fr
+					in.lastWhere = in.where()
+				}
+				panic(r)
+			case pathEnd, EngineCrash:
 				panic(r)
 			}
 			panic(EngineCrash{V: r, Stack: string(debug.Stack()), Where: in.where()})
@@ -964,7 +979,8 @@ func (in *Interp) ensureInit(p *ssa.Package) {
 				ok = false
 				switch e := r.(type) {
 				case unmodelled:
-					in.initNotes = append(in.initNotes, p.Pkg.Path()+": init aborted: "+e.msg+" at "+in.where())
+					in.initNotes = append(in.initNotes, p.Pkg.Path()+": init aborted: "+e.msg+" at "+in.lastWhere)
+					in.lastWhere = ""
 				case boundExceeded:
 					in.initNotes = append(in.initNotes, p.Pkg.Path()+": init aborted: "+e.msg)
 				case pathEnd:
